@@ -422,7 +422,14 @@ func newWorld(tw *trace.Writer, cnt *counters, id string, init map[string]any, s
 	cm.SetNamespace(ns)
 	cm.SetName(claimName)
 	if ref0 == preID {
-		_ = unstructured.SetNestedMap(cm.Object, map[string]any{"apiVersion": xrGVK.GroupVersion().String(), "kind": xrGVK.Kind, "name": pName}, "spec", "resourceRef")
+		// Half of the scenarios (by a hash of the scenario id): the reference was recorded while the XRD's referenceable version
+		// was an older one - same group, kind and name, another apiVersion. It names the same XR (added after the seeded change
+		// C06-m9 - a recorded name is only reused if the reference's full GVK is the current one - was missed).
+		av := xrGVK.GroupVersion().String()
+		if h := fnv.New32a(); func() bool { _, _ = h.Write([]byte(strings.SplitN(id, "/", 2)[0])); return (h.Sum32()/2)%2 == 1 }() {
+			av = xrGVK.Group + "/v1alpha1"
+		}
+		_ = unstructured.SetNestedMap(cm.Object, map[string]any{"apiVersion": av, "kind": xrGVK.Kind, "name": pName}, "spec", "resourceRef")
 	}
 	if fg {
 		_ = unstructured.SetNestedField(cm.Object, "Foreground", "spec", "compositeDeletePolicy")
